@@ -140,6 +140,25 @@ def runNumfCase (x : String) (steps : List String) : String :=
     | .panic _ => "panic"
     | .unmodelled w => "unmodelled " ++ w
 
+/-! ### `parse` op (property C06): scan, then the block parser on the standard table -/
+
+/-- the expression checker of the `parse` op: the model of `expressions.Parse` on an object's
+    arguments (`objChk`, Render.lean). A literal outside the lexer model makes the case `unmodelled`. -/
+def parseChk : Bytes → Option Cause := objChk
+
+def PErrKind.code : PErrKind → String
+  | .objSyntax _ => "objSyntax"
+  | .notInside => "notInside"
+  | .unterminated => "unterminated"
+  | .tagSyntax _ => "tagSyntax"
+  | .undefinedTag => "undefinedTag"
+
+def showParse : Res PErr (List AST) → String
+  | .ok ast => let sh := AST.shapeList ast; "ok " ++ (if sh.isEmpty then "-" else sh)
+  | .err e => s!"err {e.kind.code} {e.line}"
+  | .panic _ => "panic"
+  | .unmodelled w => "unmodelled " ++ w
+
 def runCase (line : String) : String :=
   match line.splitOn " " with
   | ["scan", d, ln, src] =>
@@ -151,6 +170,11 @@ def runCase (line : String) : String :=
     showStmt kind (parseSource (selectorOf kind ++ hexDecode src))
   | ["render", cfgF, pathF, lineF, srcF, envF] => runRenderCase cfgF pathF lineF srcF envF
   | ["writes", cfgF, pathF, lineF, srcF, envF] => runWritesCase cfgF pathF lineF srcF envF
+  | ["parse", d, src] =>
+    let toks := scan (parseDelims d) (hexDecode src) 1
+    match firstUnmodelledObj toks with
+    | some w => "unmodelled " ++ w
+    | none => showParse (parseTokens stdGrammar parseChk toks)
   | ["val", v] =>
     match GoVal.parse v with
     | some x => x.enc
@@ -184,4 +208,9 @@ def runCase (line : String) : String :=
   | "robust" :: _ => "unmodelled robust"
   | "determ" :: _ => "unmodelled determ"
   | "immut" :: _ => "unmodelled immut"
+  | "conc" :: _ =>
+    -- C04 race-detector rounds: the model side of a round is the theorem (every schedule of
+    -- confined threads gives each thread its sequential result and no race), so the expected
+    -- verdict of every round is `ok`
+    "ok"
   | _ => "bad-op"
